@@ -58,7 +58,7 @@ class ExportConfig:
                 dims = "["+",".join(str(d) for d in np.shape(value))+"]"
             if isinstance(param, StringType):
                 dtype = StringNode.keyword
-                value = json.dumps(value) if dims else f"\"{value}\""
+                value = json.dumps(value) if dims else "\""+str(value).replace("\"","\\\"")+"\""
             elif isinstance(param, BooleanType):
                 dtype = BooleanNode.keyword
                 value = json.dumps(value) if dims else ("true" if value else "false")
